@@ -68,6 +68,11 @@ func (actorSelf *ActorDef[T]) Send(message T) {
 		return
 	}
 
+	// Close() could close the channel at any moment (even while the send is blocked):
+	// the message is dropped then, like anything sent after Close()
+	defer func() {
+		recover()
+	}()
 	actorSelf.ch <- message
 }
 
